@@ -5,7 +5,8 @@ from vlib.wrt_common import *
 ENGINE = "wrt"
 BINS = ["wrt", "dsim"]
 RULE = ("dsim scenarios on the fixed two-participant template: RELIABLE writer with lifespan in {100, 150, 300 ms, 1 s}, KEEP_ALL or "
-        "KEEP_LAST(2..3), volatile or TRANSIENT_LOCAL; reliable reader from the start or late joiner; 4-10 steps of writes (a third "
+        "KEEP_LAST(2..3), volatile or TRANSIENT_LOCAL; in 3 of 5 cases an idle writer (infinite or 5 s lifespan) is created first in the same "
+        "publisher; reliable reader from the start or late joiner; 4-10 steps of writes (a third "
         "with an explicit source timestamp: just expired, expiring now, in the future), lost DATA (`drop-next n DATA`), withheld / "
         "released ACKNACKs, `advance` / `jump` / `late-release` by lifespan-1, lifespan, lifespan+1, ... ns; a quarter of the cases "
         "start with the recipe lost DATA + withheld NACK + clock moved to the expiry; the datagram trace is recorded from the start "
@@ -40,6 +41,13 @@ CORPUS = [
                 "reader r sub t2 reliability=reliable history=keep_all", "trace on", "drop-next 1 DATA user",
                 "now", "write w 1 1", "now", "advance 250000000", "now", "take r",
                 "clear-faults", "release", "advance 1000000000", "now", "trace show"],
+    # two writers in one participant, the first with the default (infinite) lifespan: the purge must still reach the second;
+    # a late TRANSIENT_LOCAL joiner after the expiry gets nothing
+    TEMPLATE + ["topic t0 P1 T0 ki", "writer w0 pub t0",
+                "writer w pub t1 reliability=reliable history=keep_all lifespan=300000000 durability=transient_local",
+                "trace on", "now", "write w 1 1", "now", "advance 900000000", "now",
+                "reader r sub t2 reliability=reliable history=keep_all durability=transient_local",
+                "clear-faults", "release", "advance 1000000000", "now", "take r", "trace show"],
 ]
 
 oracle = c29_oracle
